@@ -180,6 +180,37 @@ def sites(job):
                 except Exception:  # noqa
                     rows[r] = {t: "E" for t in names}
             m = matrix(lambda t, r: rows[r][t])
+        elif kind.startswith("rep"):
+            # the SAME object (or constant) at two or three positions of a fact / goal / fluent whose parameters have
+            # the required types R1 R2 [R3]; row-major over (T, R1, R2[, R3]).  Predicates b_R1_R2, c_R1_R2_R3,
+            # functions fb_R1_R2, fc_R1_R2_R3 (see harness/props/c06.py:repeat_domain_text).
+            import itertools as _it
+            arity = 3 if kind.startswith("rep3") else 2
+            what = kind.split("_", 1)[1]
+
+            def rep(t, rs, kind=kind, arity=arity, what=what):
+                who = ("k" if what in ("cfact", "cfluent") else "o") + t
+                args = [who] * arity
+                if kind.startswith("rep3m"):
+                    args = [who, "zz", who]
+                sym = ("b_" if arity == 2 else "c_") + "_".join(rs)
+                if what in ("fact", "cfact"):
+                    return parses(domain, problem_text(objects, init="(%s %s)" % (sym, " ".join(args))))
+                if what == "goal":
+                    return parses(domain, problem_text(objects, goal="(%s %s)" % (sym, " ".join(args))))
+                if what in ("fluent", "cfluent"):
+                    return parses(domain, problem_text(objects, init="(= (f%s %s) 1)" % (sym, " ".join(args))))
+                if what == "tfluent":
+                    p = write_tmp("((:init (= (f%s %s) 1)))" % (sym, " ".join(args)), ".trajectory")
+                    try:
+                        TrajectoryParser(domain, base_problem).parse_trajectory(p)
+                        return "1"
+                    except Exception:  # noqa
+                        return "0"
+                    finally:
+                        p.unlink()
+                raise ValueError("unknown repeat kind " + kind)
+            m = "".join(rep(t, rs) for t in names for rs in _it.product(names, repeat=arity))
         elif kind == "joint_eff":
             # joint execution (multi_agent/common.apply_actions) of eff<R> together with chkobject: two executed
             # members, so the accumulating path is taken; the members' operators get the problem's objects
